@@ -101,27 +101,28 @@ def create(cfg, extra=None):
 
 
 def step(cfg, obj, q, g, a, m, dt=None):
-    """one streaming update from attitude q with one sample"""
+    """one streaming update from attitude q with one sample (dt: an explicit time step handed to the call itself)"""
     f, arch = cfg["f"], cfg["arch"]
     q = np.array(q, dtype=float)
     g = np.array(g, dtype=float)
     a = None if a is None else np.array(a, dtype=float)
     m = None if m is None else np.array(m, dtype=float)
+    kd = {} if dt is None else {"dt": dt}
     if f == "AngularRate":
         kw = kwargs_of(cfg)
-        return np.asarray(obj.update(q, g, method=kw.get("method", "closed"), order=kw.get("order", 1)), dtype=float)
+        return np.asarray(obj.update(q, g, method=kw.get("method", "closed"), order=kw.get("order", 1), **kd), dtype=float)
     if f in ("Madgwick", "Mahony", "AQUA"):
         if arch == "MARG":
-            return np.asarray(obj.updateMARG(q, g, a, m), dtype=float)
-        return np.asarray(obj.updateIMU(q, g, a), dtype=float)
+            return np.asarray(obj.updateMARG(q, g, a, m, **kd), dtype=float)
+        return np.asarray(obj.updateIMU(q, g, a, **kd), dtype=float)
     if f == "EKF":
         if arch == "MARG":
-            return np.asarray(obj.update(q, g, a, m), dtype=float)
-        return np.asarray(obj.update(q, g, a), dtype=float)
+            return np.asarray(obj.update(q, g, a, m, **kd), dtype=float)
+        return np.asarray(obj.update(q, g, a, **kd), dtype=float)
     if f == "UKF":
-        return np.asarray(obj.update(q, g, a), dtype=float)
+        return np.asarray(obj.update(q, g, a, **kd), dtype=float)
     if f in ("ROLEQ", "Fourati"):
-        return np.asarray(obj.update(q, g, a, m), dtype=float)
+        return np.asarray(obj.update(q, g, a, m, **kd), dtype=float)
     raise KeyError(f)
 
 
